@@ -330,12 +330,12 @@ Definition poll_fut (s : st) (f : N) (x : fut) (w : N) : st * out :=
       end
   | FSendB rest sent total =>
       if negb (s_alive s) then (s, ONA) else
-      if N.eqb sent total then (kill s f x, OReady (OBatch BOk total [])) else
+      if N.eqb sent total then (add_drops (kill s f x) rest, OReady (OBatch BOk total [])) else
       if s_closed s then (add_drops (kill s f x) rest, OReady (OBErr sent rest)) else
       match send_some rest s with
       | None => (add_drops (kill s f x) rest, OReady (OBErr sent rest))
       | Some (s', k, rest') =>
-          if N.eqb (sent + k) total then (kill s' f x, OReady (OBatch BOk total []))
+          if N.eqb (sent + k) total then (add_drops (kill s' f x) rest', OReady (OBatch BOk total []))
           else (pend (reg_producer f w s') f (FSendB rest' (sent + k) total) w, OPending)
       end
   | FSendM rest sent =>
